@@ -1177,8 +1177,11 @@ class WorkflowConductor(object):
     def get_task_context(self, ctx_idxs):
         ctx = {}
 
+        # Merge copies of the context entries. The merge is recursive and done in place, so
+        # merging the entries themselves would write nested values into the recorded contexts.
         for ctx_idx in ctx_idxs:
-            ctx = dict_util.merge_dicts(ctx, self.workflow_state.contexts[ctx_idx], overwrite=True)
+            ctx_entry = json_util.deepcopy(self.workflow_state.contexts[ctx_idx])
+            ctx = dict_util.merge_dicts(ctx, ctx_entry, overwrite=True)
 
         return ctx
 
